@@ -116,3 +116,23 @@ fn u04_6_het_hash_masks() {
     let (fh2, nh2) = jenkins_hashlittle2("Ab\\", bits);
     assert!(fh == fh2 && nh == nh2, "case and slash direction do not matter");
 }
+
+// the HET hash is the lookup3 value of the name folded BYTE by byte (ASCII upper case, '/' -> '\\'): a multi-byte UTF-8 character
+// contributes all of its bytes, unchanged
+// @harness unit=U04.6 props=C04 kind=bounded bound="names of one two-byte UTF-8 character (U+00FC) followed by one ASCII byte (every value)" timeout=900 target="crypto/jenkins.rs: jenkins_hashlittle2 folding of the name (non-ASCII names)" oracle=hash
+#[kani::proof]
+#[kani::unwind(16)]
+#[kani::stub(alloc::fmt::format, stub_format)]
+fn u04_6_het_hash_folds_bytes() {
+    let a: u8 = kani::any();
+    kani::assume(a < 0x80);
+    let raw = [0xC3u8, 0xBC, a];
+    let name = unsafe { core::str::from_utf8_unchecked(&raw) }; // well-formed by construction: U+00FC + ASCII
+    let fa = if a == b'/' { b'\\' } else if a >= b'a' && a <= b'z' { a - 32 } else { a };
+    let folded = [0xC3u8, 0xBC, fa];
+    let (c, b) = ref_hashlittle2(&folded, 2, 1);
+    let want = ((b as u64) << 32) | (c as u64);
+    let (fh, nh) = jenkins_hashlittle2(name, 64);
+    assert!(fh == want, "64-bit HET hash = lookup3 (seeds 2, 1) of the byte-folded name");
+    assert!(nh as u64 == want >> 56, "NameHash1 = top byte");
+}
